@@ -318,19 +318,23 @@ def thorough_extras(vc, prop, report, code):
     for oid in summ["hypotheses_contradictory"]:
         report["errors"].append(f"{oid}: hypotheses are contradictory (vacuous proof)")
         code = 3 if code != 1 else code
-    seed_dir = os.path.join(ROOT, "seeded", prop)
     sweep = os.path.join(ROOT, "tools", "seed_sweep.sh")
-    if os.path.isfile(os.path.join(seed_dir, "patch.diff")) and os.path.isfile(sweep) and not os.environ.get("PYVC_NO_SEED_SWEEP"):
+    seeds = sorted(d for d in os.listdir(os.path.join(ROOT, "seeded")) if d.rstrip("abcdefghijklmnopqrstuvwxyz") == prop
+                   and os.path.isfile(os.path.join(ROOT, "seeded", d, "patch.diff"))) if os.path.isdir(os.path.join(ROOT, "seeded")) else []
+    if seeds and os.path.isfile(sweep) and not os.environ.get("PYVC_NO_SEED_SWEEP"):
         env = dict(os.environ, PYVC_NO_SEED_SWEEP="1", VERIF_TIER="quick", SEED_SCRATCH=f"/tmp/pyvc_sens_{prop}_{os.getpid()}")
-        try:
-            p = subprocess.run([sweep, prop], capture_output=True, text=True, timeout=3600, env=env, cwd=ROOT)
-            line = (p.stdout.strip().splitlines() or [""])[-1]
-            detected = f"{prop}: exit 1" in line
-            vc.extra["seeded_change_sensitivity"] = {"seed": f"seeded/{prop}/patch.diff", "detected": detected, "sweep_output": line[:300]}
-            if not detected:
-                report.setdefault("notes", []).append(f"sensitivity: the seeded change of {prop} is not detected ({line[:120]})")
-        except subprocess.TimeoutExpired:
-            vc.extra["seeded_change_sensitivity"] = {"seed": f"seeded/{prop}/patch.diff", "detected": None, "sweep_output": "timeout"}
+        out = []
+        for sd in seeds:
+            try:
+                p = subprocess.run([sweep, sd], capture_output=True, text=True, timeout=3600, env=env, cwd=ROOT)
+                line = (p.stdout.strip().splitlines() or [""])[-1]
+                detected = f"{sd}: exit 1" in line
+                out.append({"seed": f"seeded/{sd}/patch.diff", "detected": detected, "sweep_output": line[:300]})
+                if not detected:
+                    report.setdefault("notes", []).append(f"sensitivity: the seeded change {sd} is not detected ({line[:120]})")
+            except subprocess.TimeoutExpired:
+                out.append({"seed": f"seeded/{sd}/patch.diff", "detected": None, "sweep_output": "timeout"})
+        vc.extra["seeded_change_sensitivity"] = out if len(out) > 1 else out[0]
     return code
 
 
